@@ -98,6 +98,7 @@ class Walker:
         self.inline_depth = inline_depth
         self.sites = itertools.count(1)
         self.paths = []
+        self.theta = {}          # type-parameter substitution of the body currently inlined (param 's' -> caller type)
 
     # ------------------------------------------------------------------------------------------- memory
     def _base(self, body, env, local):
@@ -288,6 +289,9 @@ class Walker:
                 return
             if k == "call":
                 info = callee_info(t["callee"])
+                theta = env.get("$theta")
+                if theta:
+                    info = dict(info, targs=[_subst_ty(x, theta) for x in info["targs"]])
                 args = [self.operand(body, env, a) for a in t["args"]]
                 if mir.is_panic_callee(info["def"]):
                     events.append(("call", next(self.sites), info["key"], info["base_key"], info["def"], args, info["targs"], None))
@@ -311,7 +315,7 @@ class Walker:
                             elems = tup[4] if tup[0] == "agg" and tup[1] == "tuple" else [tup]
                             cargs = [args[0]] + list(elems)
                 if callee is not None:
-                    self._inline(callee, cargs, t, body, env, events, stack, depth, cont, info["key"])
+                    self._inline(callee, cargs, t, body, env, events, stack, depth, cont, info["key"], info["targs"])
                     return
                 # loop-like iterator combinators taking a local closure: the closure body is explored once as the loop body
                 if self.crate is not None and info["base_key"] in LOOP_COMBINATORS and depth < self.inline_depth:
@@ -439,8 +443,13 @@ class Walker:
             return False
         return len(cand.blocks) <= 120
 
-    def _inline(self, callee, args, t, body, env, events, stack, depth, cont, key):
+    def _inline(self, callee, args, t, body, env, events, stack, depth, cont, key, targs=None):
         cenv = {"$mem": env["$mem"], "$dec": env["$dec"]}
+        gens = [g for g in callee.raw.get("generics", []) if g.get("k") != "lt"]
+        if targs and len(gens) == len(targs):
+            th = {g["s"]: a for g, a in zip(gens, targs) if g.get("k") == "param" and a.get("s") and a.get("s") != g.get("s")}
+            if th:
+                cenv["$theta"] = th
         for i, a in enumerate(args):
             cenv[i + 1] = a
         dest, tgt = t["dest"], t["t"]
@@ -495,6 +504,28 @@ def _canon_edge(op, v):
     if v[1] == [1]:
         return ("bool", False)
     return ("notin", tuple(v[1]))
+
+
+def _subst_ty(t, theta):
+    """replace type parameters of an inlined generic helper by the caller's types (structure and display string)"""
+    if not isinstance(t, dict):
+        return t
+    if t.get("k") == "param" and t.get("s") in theta:
+        return theta[t["s"]]
+    out = dict(t)
+    s = t.get("s")
+    if s:
+        for k, v in theta.items():
+            if k in s:
+                s = s.replace(k, v.get("s", k))
+        out["s"] = s
+    if "args" in t:
+        out["args"] = [_subst_ty(x, theta) for x in t["args"]]
+    if "t" in t and isinstance(t["t"], dict):
+        out["t"] = _subst_ty(t["t"], theta)
+    if "ts" in t:
+        out["ts"] = [_subst_ty(x, theta) for x in t["ts"]]
+    return out
 
 
 def _prefix(a, b):
